@@ -135,7 +135,7 @@ def main():
             if b.returncode != 0:
                 rows.append((n, ids, f, desc, "DOES NOT BUILD", b.stdout[-300:]))
                 continue
-            t = sh("cd /repo && go test -vet=off -count=1 ./... 2>&1 | tail -1", env=dict(os.environ, GOFLAGS="-mod=mod", GOPROXY="off", GOSUMDB="off", GOTOOLCHAIN="local"))
+            t = sh("cd /repo && go test -vet=off -count=1 -timeout 120s ./... 2>&1 | tail -1", env=dict(os.environ, GOFLAGS="-mod=mod", GOPROXY="off", GOSUMDB="off", GOTOOLCHAIN="local"))
             suite = "suite passes" if t.stdout.startswith("ok") else "SUITE FAILS"
             verdicts = []
             for cid in ids.split():
